@@ -518,9 +518,20 @@ const c09Rule = "bodies from a JSON-RPC grammar (single/batch/empty/padded; ids 
 func TestC09(t *testing.T) {
 	rec := NewRec("C09", c09Rule)
 	defer rec.Finish(t)
-	rec.RequireClass("batch_with_notification", "batch_with_invalid_id", "fraction_id", "string_id", "body_malformed", "body_empty", "body_emptybatch", "batch_all_notifications", "transport_http", "transport_http-chunked", "transport_ws")
+	rec.RequireClass("cancelled_call_ws", "cancelled_call_inproc", "batch_with_notification", "batch_with_invalid_id", "fraction_id", "string_id", "body_malformed", "body_empty", "body_emptybatch", "batch_all_notifications", "transport_http", "transport_http-chunked", "transport_ws")
 	env := newC09Env()
 	defer env.Close()
+
+	t.Run("cancelled", func(t *testing.T) {
+		for _, via := range []string{"inproc", "ws"} {
+			for _, id := range []string{"7", `"abc"`, "2.5", "0"} {
+				for _, wrap := range []bool{false, true} {
+					c := c09CancelCase{Via: via, ID: id, Wrap: wrap, Batch: via == "inproc" && id == "7"}
+					rec.Run(t, c, true, []string{"cancelled_call_" + via}, func() *Violation { return runC09Cancel(c) })
+				}
+			}
+		}
+	})
 
 	run := func(ft failer, c c09Case) {
 		var nt bool
@@ -640,6 +651,10 @@ func TestC09Replay(t *testing.T) {
 	env := newC09Env()
 	defer env.Close()
 	Replay(t, "C09", 3, func(raw json.RawMessage) *Violation {
+		var cc c09CancelCase
+		if json.Unmarshal(raw, &cc) == nil && cc.Via != "" {
+			return runC09Cancel(cc)
+		}
 		var c c09Case
 		if err := json.Unmarshal(raw, &c); err != nil {
 			return nil
